@@ -173,10 +173,10 @@ def main():
         m = anc[f]
         hit = [p for p, text in m.items() if func and re.search(r"\b%s\b" % re.escape(func), text)]
         rest = [p for p in m if p not in hit]
-        order = sorted(hit) + sorted(rest)
-        # the generalists last
-        order = [p for p in order if p not in ("C14", "C15")] + [p for p in order if p in ("C14", "C15")]
-        return order[:a.maxchecks]
+        # properties whose anchors name the function first; among the others the generalists (C14, C15) come first: their
+        # vectors reach every decoder
+        rest = [p for p in rest if p in ("C14", "C15")] + [p for p in rest if p not in ("C14", "C15")]
+        return (sorted(hit) + rest)[:max(a.maxchecks, len(hit))]
 
     def one(c):
         f, pt, func = c
